@@ -24,7 +24,8 @@ ASSUMPTIONS = RT_ASSUMPTIONS
 
 PROFILE = S.GENERAL.but(p_forever=38, p_never=50, p_sched_forever=25, p_nested=24,
                         p_raise=10, p_critical=25, p_edge=32, p_wild=15,
-                        timeouts=((None, 12), (2.5, 1), (4, 1), (6, 1), (8, 1)),
+                        timeouts=((None, 8), (2.5, 2), (3, 1), (4, 2), (4.5, 1), (6, 2), (8, 1)),
+                        cs=((0, 3), (1, 3), (2, 2)),
                         windows=((None, 5), (0, 1), (2, 2), (3, 2), (4, 1)))
 
 
